@@ -140,6 +140,12 @@ def ob_cache_step(v: int, perr: bool, pvol: bool, pcaching: bool, pvar: int, pre
         elif clause == "C09":
             if hit:
                 ok = ok and calls == [] and c1.asked == [] and outcome(out) == outcome(keyref)
+                # "no extra parameters" spelled as an empty list / dict (what the web handlers pass) is still a plain evaluation
+                for empty in ([], {}):
+                    c3 = HContext(cache, _substates(qi, v, perr, pvol, pcaching, pvar))
+                    del CALLS[:]
+                    o3 = c3.evaluate(q, extra_parameters=empty)
+                    ok = ok and list(CALLS) == [] and c3.asked == [] and outcome(o3) == outcome(keyref)
             elif pre != 2:
                 # a miss: the predecessor was requested exactly once, with the same cache
                 ok = ok and [a for a in c1.asked if a[0] == ptext] == [(ptext, cache, {})]
@@ -157,7 +163,8 @@ def ob_cache_step(v: int, perr: bool, pvol: bool, pcaching: bool, pvar: int, pre
                     continue
                 # whatever the cache serves for a key is what a fresh evaluation of that key produces
                 if key == canonical:
-                    ok = ok and admissible and (not g.is_error) and outcome(g)[:2] == outcome(keyref)[:2]
+                    # ... in value AND in what describes it (volatility flag, variables, file name, extension)
+                    ok = ok and admissible and (not g.is_error) and outcome(g) == outcome(keyref)
                 else:
                     ok = False
             failed_or_volatile = not admissible
@@ -165,7 +172,7 @@ def ob_cache_step(v: int, perr: bool, pvol: bool, pcaching: bool, pvar: int, pre
                 g = cache.get(canonical)
                 ok = ok and (g is None or (admissible and pre == 2 and not use_extra))
                 if use_extra:
-                    ok = ok and (g is None or outcome(g)[:2] == outcome(keyref)[:2])
+                    ok = ok and (g is None or outcome(g) == outcome(keyref))
             if (not failed_or_volatile) and (not use_extra) and ci in (0, 1, 2, 3, 7, 8, 9):
                 g = cache.get(canonical)
                 ok = ok and g is not None and g.query == canonical
